@@ -1006,11 +1006,10 @@ namespace
     value isnil_string(runtime& runtime, value::cref right)
     {
         auto varname = right.data<d_string, std::string>();
-        auto val = runtime.context_active().get_variable(varname);
-        if (!val.has_value())
-        {
-            val = runtime.context_active().current_frame().globals_value_scope()->try_get(varname);
-        }
+        // Same lookup as a plain read of the name: locals through the scopes, everything else in the current namespace
+        auto val = !varname.empty() && varname[0] == '_'
+            ? runtime.context_active().get_variable(varname)
+            : runtime.context_active().current_frame().globals_value_scope()->try_get(varname);
         return val.has_value() ? val->empty() : true;
     }
     value isnil_code(runtime& runtime, value::cref right)
